@@ -773,7 +773,27 @@ func C11Worker(args []string) int {
 
 // ExtraC11Corpus adds entry points the main corpus lacks.
 func ExtraC11Corpus() []*Scenario {
-	return []*Scenario{
+	var coll []*Scenario
+	// the GET handler serving stored collections of every kind, with inline members and without any
+	for _, typ := range []string{"Collection", "OrderedCollection", "CollectionPage", "OrderedCollectionPage"} {
+		for _, shape := range []string{"inline-items", "no-items-member", "empty-items"} {
+			typ, shape := typ, shape
+			id := "https://l.example/served/" + typ + "-" + shape
+			member := "items"
+			if strings.HasPrefix(typ, "Ordered") {
+				member = "orderedItems"
+			}
+			doc := Doc(typ, id, "totalItems", 2, "first", id+"?page=1")
+			switch shape {
+			case "inline-items":
+				doc[member] = L{Note1, Emb("Note", "https://l.example/n/inline", "content", "x", "bto", Carol)}
+			case "empty-items":
+				doc[member] = L{}
+			}
+			coll = append(coll, &Scenario{Name: "c11/handler-serves-" + typ + "-" + shape, Kind: ap.Both, Entry: "Handler", URL: id, Tweak: func(a *ap.App) { a.PutDoc(doc) }})
+		}
+	}
+	return append(coll, []*Scenario{
 		{Name: "c11/social-only-get-inbox", Kind: ap.SocialOnly, Entry: "GetInbox", URL: inbox(Alice)},
 		{Name: "c11/federating-only-get-outbox", Kind: ap.FederatingOnly, Entry: "GetOutbox", URL: outbox(Alice)},
 		{Name: "c11/send-create-embedded-actor", Kind: ap.Both, Entry: "Send", URL: outbox(Alice),
@@ -782,7 +802,7 @@ func ExtraC11Corpus() []*Scenario {
 			Body: Doc("Undo", "", "actor", Alice, "object", "https://l.example/like/7", "to", Carol)},
 		{Name: "c11/in-accept-two-objects", Kind: ap.Both, Entry: "PostInbox", URL: inbox(Alice),
 			Body: Doc("Accept", RAct, "actor", L{Carol, Emb("Person", Dave)}, "object", L{RNote, Emb("Follow", Follow1, "actor", Alice, "object", Carol)})},
-	}
+	}...)
 }
 
 // C11 — hostile input cannot crash or hang the decoder or the handlers.
